@@ -234,7 +234,7 @@ CLAIMED["C16"] = {
             "as_rule(), == comparisons, Option tests, boolean flags, aliases through clone / Node::new_with_user_data, the Pratt-parser "
             "primary/prefix/infix/postfix partition read from the Op::infix(Rule::X) constants) and decides ~100 obligations: O1 a match on as_rule() "
             "whose fall-through can only panic has an arm for every rule the grammar can produce there; O2 an unwrapped next()/last() cannot be None; "
-            "O3 an unwrapped single() has exactly one child; O4 assert_eq!(node.as_rule(), Rule::X) holds for every node reaching it. Two further exact rules: break/continue resolve only to a loop of the same function (the scope scan stops at a function scope), text-to-number conversions of literals are propagated, never unwrapped, and no recursive walker of the syntax tree calls back into its own recursion cycle twice on the same child on one path (2^depth compile time); and borrow discipline on the scope stack -- no function that can take a mutable borrow of RefCell<Vec<Scope>> (call-graph closure of borrow_mut) is called while a Ref guard into it may be alive (flow-sensitive typestate of guard-owning locals over MIR: born at borrowing calls, dead when moved out, dropped, or on the None edge of an Option test), i.e. no `RefCell already borrowed` panic on a valid program. Not decided: panics resting on typing/scoping invariants (counted), stack depth, termination.",
+            "O3 an unwrapped single() has exactly one child; O4 assert_eq!(node.as_rule(), Rule::X) holds for every node reaching it. Two further exact rules: break/continue resolve only to a loop of the same function (the scope scan stops at a function scope), text-to-number conversions of literals are propagated, never unwrapped, and no recursive walker of the syntax tree calls back into its own recursion cycle twice on the same child on one path (2^depth compile time); and borrow discipline on the scope stack -- no function that can take a mutable borrow of RefCell<Vec<Scope>> (call-graph closure of borrow_mut) is called while a Ref guard into it may be alive (flow-sensitive typestate of guard-owning locals over MIR: born at borrowing calls, dead when moved out, dropped, or on the None edge of an Option test), i.e. no `RefCell already borrowed` panic on a valid program; and conversions that are fallible by contract (impl TryFrom / FromStr, functions named try_*) contain no explicit unreachable! / panic! / todo! in their body. Not decided: panics resting on typing/scoping invariants (counted), stack depth, termination.",
     "technique": "static analysis: typestate / abstract interpretation of rustc MIR against automata built from the pest grammar",
     "design_ref": "DESIGN.md §5 C16, §4.8",
 }
@@ -302,7 +302,7 @@ NOT_APPLICABLE = {
 }
 
 # no hook commits exist; the only commits made to /repo are unguarded "fix:" repairs of genuine defects (see known_findings.json)
-FIX_COMMITS = ["e2ae2a9", "cb2d1e0", "e7575e5", "7bc2f7d", "0af4d83", "e4a4c00", "58e025f", "686179e", "7296d9a", "fa4b68b", "379557f", "4b30646", "0420930", "3aba53e", "2f2a1a1", "40a185d", "926b1f7", "1bc1139", "80aa30b", "cb4346c", "34ccc50", "c46bbfb", "52e39f3", "113558c", "2f9df7c", "3049d27", "8c4d891", "b57e9f6", "06f5ab2", "b6686d7", "5bdb4bc", "21f2ccc", "f629b30", "fbc7074"]
+FIX_COMMITS = ["e2ae2a9", "cb2d1e0", "e7575e5", "7bc2f7d", "0af4d83", "e4a4c00", "58e025f", "686179e", "7296d9a", "fa4b68b", "379557f", "4b30646", "0420930", "3aba53e", "2f2a1a1", "40a185d", "926b1f7", "1bc1139", "80aa30b", "cb4346c", "34ccc50", "c46bbfb", "52e39f3", "113558c", "2f9df7c", "3049d27", "8c4d891", "b57e9f6", "06f5ab2", "b6686d7", "5bdb4bc", "21f2ccc", "f629b30", "fbc7074", "28b2626"]
 
 PENDING = "check not built yet in this round (framework under construction); planned per DESIGN.md §5/§8"
 
